@@ -280,11 +280,14 @@ void kerl_set_history_file(const char *path)
   FILE *file = fopen(path, "r");
   if (file) {
     while (NULL != (fgets(buf, 1024, file))) {
-      buf[strlen(buf)-1] = 0; // get rid of \n
+      size_t len = strlen(buf);
+      // get rid of \n (a line that starts with a NUL byte reads as empty, and the last line may lack the \n)
+      if (len > 0 && buf[len-1] == '\n') buf[len-1] = 0;
       // unescape
       unescape(buf, 1);
       add_history(buf);
     }
+    fclose(file);
   }
 #endif // HAVE_READLINE_HISTORY
 }
